@@ -40,6 +40,60 @@ class K:
 '''
 
 
+SRC2 = '''
+class G:
+    def h(self, a, b, n: int = 0):
+        if not a:
+            raise ValueError('a')
+        if b:
+            raise ValueError('b')
+        if a.x is not None and not b.y:
+            self.both()
+        n = n + 1
+        k: int = 2
+        v = 1 if a is not None else 2
+        if b.z:
+            return v
+        raise KeyError(n)
+'''
+
+
+def _guard_policy_checks():
+    """The guard policies the rules rely on (added late in the build round)."""
+    from .rules.base import Ctx
+    m = Module('m2', 'm2.py', SRC2)
+    f = m.classes['G'].methods['h']
+
+    class _Repo:
+        modules = {'m2': m}
+    ctx = Ctx(_Repo, None, 'SELF')
+    ctx.touch = lambda fn: None
+    out = []
+    raises = sorted((n for n in ast.walk(f.node) if isinstance(n, ast.Raise)),
+                    key=lambda n: n.lineno)
+    g1 = [(show(t), p) for (t, p, _) in ctx.guards(f, raises[0])]
+    out.append(('explicit not handed out unwrapped only', g1 == [('a', False)]))
+    g2 = [(show(t), p) for (t, p, _) in ctx.guards(f, raises[1])]
+    out.append(('second refusal does not inherit the first test', g2 == [('b', True)]))
+    g2all = [(show(t), p) for (t, p, _) in ctx.guards(f, raises[1], all_dominating=True)]
+    out.append(('all_dominating restores inherited tests', ('a', True) in g2all))
+    g3 = [(show(t), p) for (t, p, _) in ctx.guards(f, raises[2])]
+    out.append(('a raise keeps an earlier test whose other branch returns',
+                ('b.z', False) in g3 and ('a', True) not in g3))
+    both = [n for n in ast.walk(f.node) if isinstance(n, ast.Call) and
+            getattr(n.func, 'attr', '') == 'both'][0]
+    gb = [(show(t), p) for (t, p, _) in ctx.guards(f, both)]
+    out.append(('atoms implied by a true conjunction',
+                ('(a.x is None)', False) in gb and ('b.y', False) in gb))
+    augs = [n for n in ast.walk(f.node) if isinstance(n, ast.AugAssign)]
+    out.append(('counter normal form: n = n + 1 is read as n += 1', len(augs) == 1))
+    anns = [n for n in ast.walk(f.node) if isinstance(n, ast.AnnAssign)]
+    out.append(('annotated assignment read as plain assignment', not anns))
+    out.append(('conditional term has a positive test',
+                pattern('1 if a is not None else 2') == pattern('2 if a is None else 1')))
+    return out
+
+
 def main():
     m = Module('m', 'm.py', SRC)
     f = m.classes['K'].methods['f']
@@ -91,6 +145,7 @@ def main():
     checks.append(('mirrored comparison', pattern('x >= y') == pattern('y <= x')))
     checks.append(('slice normalisation', pattern('v[0:n]') == pattern('v[:n]')))
     checks.append(('get == subscript', pattern("o.get('k')") == pattern("o['k']")))
+    checks.extend(_guard_policy_checks())
     bad = [name for (name, ok) in checks if not ok]
     for name, ok in checks:
         print('{} {}'.format('ok  ' if ok else 'FAIL', name))
